@@ -205,6 +205,17 @@ class Ctx:
         if not props_ok:
             self.violation({"kind": "theorem-no-longer-checks", "file": "coq/Props/%s.v" % self.pid, "log": pout[-1500:]}, found_input=False)
         self.trusted_base.append("Coq 8.16.1 kernel + vm_compute (no native_compute)")
+        if props_ok and not self.quick:
+            # thorough tier: the independent checker re-checks the compiled closure of the property's theorems
+            rc, out, err = sh(["coqchk", "-silent", "-o", "-Q", COQ, "Mage", "Mage.Props.%s" % self.pid], timeout=3000)
+            m = re.search(r"\* Axioms:(.*?)\n\s*\n", out + err, re.S)
+            self.coverage["coqchk"] = {"rc": rc, "axioms": re.sub(r"\s+", " ", m.group(1)).strip() if m else "?"}
+            self.obligations += 1
+            if rc == 0:
+                self.discharged += 1
+                self.trusted_base.append("coqchk -o re-checked Mage.Props.%s and its closure: axioms %s" % (self.pid, self.coverage["coqchk"]["axioms"]))
+            else:
+                self.violation({"kind": "theorem-no-longer-checks", "file": "coqchk Mage.Props.%s" % self.pid, "log": (out + err)[-1500:]}, found_input=False)
         return props_ok
 
     def coq_props(self, pid=None, deps_ok=True):
